@@ -291,7 +291,14 @@ pub fn gen_op(w: &World, rng: &mut Rng, prof: &Profile, seq: &mut u64) -> Op {
             } else {
                 n
             };
-            let sz = if rng.chance(1, 12) { rng.range(1, 23) } else { rng.range(24, 180) } as u32;
+            // mostly small payloads; now and then one that is larger than a whole (small) segment or than typical buffers
+            let sz = if rng.chance(1, 12) {
+                rng.range(1, 23)
+            } else if rng.chance(1, 30) {
+                *rng.pick(&[500u64, 1_000, 2_100, 4_100, 9_000, 70_000])
+            } else {
+                rng.range(24, 180)
+            } as u32;
             let mut dups = vec![];
             let balanced = rng.chance(prof.balanced_rate.0, prof.balanced_rate.1);
             let key = if !balanced && rng.chance(prof.key_rate.0, prof.key_rate.1) {
@@ -392,10 +399,11 @@ pub async fn run_history(ctx: &Ctx, prof: &Profile, hseed: u64, cache: CacheMode
     let mut w = World::new(hseed, cfg, cache, tcfg, dir);
     w.deep = prof.owner == "C16";
     w.sibling = prof.owner == "C16" || (prof.owner == "C15" && rng.chance(2, 3));
+    // half of the histories address stream and topic by name in every command
+    w.named_ids = hseed % 2 == 0;
     if w.cfg.encryption {
         w.stream_name = format!("vstream-{:08x}", hseed & 0xffff_ffff);
         w.topic_name = format!("vtopic-{:08x}", hseed & 0xffff_ffff);
-        w.named_ids = hseed % 2 == 0;
     }
     let nops = rng.range(prof.ops.0, prof.ops.1);
     let res: R<()> = async {
@@ -440,10 +448,10 @@ pub async fn replay_ops(hist: u64, cfg: StorageCfg, cache: CacheMode, tcfg: Topi
     let mut w = World::new(hist, cfg, cache, tcfg, dir);
     w.deep = deep;
     w.sibling = sibling;
+    w.named_ids = hist % 2 == 0;
     if w.cfg.encryption {
         w.stream_name = format!("vstream-{:08x}", hist & 0xffff_ffff);
         w.topic_name = format!("vtopic-{:08x}", hist & 0xffff_ffff);
-        w.named_ids = hist % 2 == 0;
     }
     let res: R<()> = async {
         w.boot().await?;
